@@ -4,6 +4,7 @@ package main
 import (
 	"fmt"
 	"os"
+	"time"
 
 	"verifmc/core"
 	"verifmc/schedx"
@@ -11,6 +12,9 @@ import (
 
 func main() {
 	r := core.Start("C18")
+	if !tinyTimeoutIsImmediate() {
+		core.Fatal("harness assumption broken: context.WithTimeout(1ns) is not done on return")
+	}
 	scenarios := handoffScenarios()
 	jarDepth, jarAlpha := 4, jarAlphabet(false)
 	if !r.Quick() {
@@ -39,6 +43,13 @@ func main() {
 		r.Finish(core.Evidence{Level: "model_checking", Exhaustive: true, Coverage: cov,
 			Assumptions: []string{"fasthttp's connection layer is replaced by a round-tripper; timeouts are modelled as context cancellation (same <-ctx.Done() branch)", "sequential consistency; scheduling points at sync/atomic/pool/channel operations of client/{core,request,response,client}.go"}})
 	}
+	t0 := time.Now()
+	lap := func(what string) { // dev aid: C18_TIMING=1 prints the wall time of every phase of every worker
+		if os.Getenv("C18_TIMING") != "" {
+			fmt.Fprintf(os.Stderr, "timing worker=%d %s %.1fs\n", r.Worker, what, time.Since(t0).Seconds())
+		}
+		t0 = time.Now()
+	}
 	if r.Worker == 0 {
 		runFidelity(r) // map orders are process-global: part A runs in one worker
 		seqDepth := 3
@@ -47,8 +58,11 @@ func main() {
 		}
 		runCfgSequences(r, seqDepth)
 		runReaderBehaviours(r)
+		lap("fidelity")
 	}
 	enumerateJar(r, jarDepth, jarAlpha)
+	lap("jar")
 	schedx.RunAll(r, scenarios, 0)
+	lap("handoff")
 	r.FinishWorker()
 }
